@@ -65,15 +65,15 @@ assumed("Element.__setitem__", "node[key] = value sets an attribute; attributes 
 contract(
     f"{M}:DocutilsRenderer.copy_attributes",
     requires=[],
-    # may append warning nodes to `node` (an invalid attribute value) - nothing else of the modelled tree changes
+    # copies attributes (not modelled); nothing of the modelled tree changes
     ensures=["node.parent == old(node.parent)", "node.kind == old(node.kind)", "node.line == old(node.line)",
-             "len(node.children) >= len(old(node.children))",
-             "node.children[: len(old(node.children))] == old(node.children)"],
+             # (a warning node is appended only for a failing converter; these call sites pass none - `converters` is typed None)
+             "node.children == old(node.children)"],
     types={"token": "SyntaxTreeNode", "node": "Element", "keys": "tuple[str, ...]", "converters": "None", "aliases": "None"},
     raises={}, modifies=["node.children", "Document.log", "fresh", "Element.parent"], trusted=True,
 )
-assumed("DocutilsRenderer.copy_attributes", "copies class / id / other attributes (not modelled) and may append a warning node to `node`; "
-        "existing nodes keep their parent", "myst_parser")
+assumed("DocutilsRenderer.copy_attributes", "copies class / id / other attributes (not modelled); without converters (all call sites under "
+        "contract) it appends nothing and changes no parent", "myst_parser")
 
 # G' (contracts/assumed_docutils.py) for the dynamic dispatch over the children, plus the ghost that records where it ran
 contract(
